@@ -108,3 +108,13 @@ Proof.
 Qed.
 Theorem wrapper_sem m e : eqv m e -> eqv (MAnd [m; MPrim print_prim]) (EAnd e (EP print_prim)).
 Proof. intros H. apply eqv_and_cons; [exact H|]. apply eqv_one_and. apply eqv_prim. Qed.
+
+(* starting points are independent: without quit, one result per root, in order *)
+Theorem find_roots_independent c m roots :
+  Forall (fun r => snd (find_root c (fst r) m (snd r)) = false) roots ->
+  find_roots c m roots = map (fun r => fst (find_root c (fst r) m (snd r))) roots.
+Proof.
+  induction roots as [|[tvf n] roots IH]; intros H; [reflexivity|]. inversion H as [|? ? Hq Hs]; subst.
+  cbn [find_roots map fst snd] in *. destruct (find_root c tvf m n) as [l q]. cbn [snd fst] in *. subst q.
+  now rewrite IH.
+Qed.
